@@ -1,6 +1,7 @@
 package sim
 
 import (
+	"bufio"
 	"bytes"
 	"errors"
 	"fmt"
@@ -101,6 +102,11 @@ func usedProg() (*bcl.Prog, *bytes.Buffer, *bytes.Buffer) {
 // (a decompressor's unexpected EOF, a failing disk) instead of io.EOF.
 func c13LoadVariant(sc *Scenario, data []byte, script []simio.ReadStep, what string, o *Outcome, sig string, variant int) {
 	lr := &loadResult{Out: &bytes.Buffer{}, Log: &bytes.Buffer{}}
+	if c13Hung[variant] && sc.Class != "single" {
+		// one 20 s wait per variant and worker process is enough to report it
+		o.probe("skipped_after_hang", 1)
+		return
+	}
 	done := make(chan struct{})
 	go func() {
 		defer close(done)
@@ -123,6 +129,23 @@ func c13LoadVariant(sc *Scenario, data []byte, script []simio.ReadStep, what str
 			lr.Prog, lr.Err = bcl.LoadProg(&simio.SimReader{Data: data, Script: MarkEOF(script, len(data)), EndErr: io.ErrUnexpectedEOF}, "n", bcl.OptOutput(lr.Out), bcl.OptLogger(lr.Log))
 		case 5: // what cmd/bcl passes: something that can also be closed and has a name
 			lr.Prog, lr.Err = bcl.LoadProg(&fileLike{SimReader: simio.SimReader{Data: data, Script: script}}, "n", bcl.OptOutput(lr.Out), bcl.OptLogger(lr.Log))
+		case 6: // the caller's own buffered reader, retried and then re-used for the next file
+			br := bufio.NewReaderSize(&simio.SimReader{Data: data, Script: script}, 8192)
+			_, e1 := bcl.LoadProg(br, "n", bcl.OptOutput(lr.Out), bcl.OptLogger(lr.Log))
+			_, e2 := bcl.LoadProg(br, "n", bcl.OptOutput(lr.Out), bcl.OptLogger(lr.Log)) // what is left: the empty prefix
+			br.Reset(&simio.SimReader{Data: data})
+			bcl.LoadProg(bytes.NewReader(c13Small()), "other", bcl.OptOutput(lr.Out), bcl.OptLogger(lr.Log)) // an unrelated, complete load in between
+			_, e3 := bcl.LoadProg(br, "n", bcl.OptOutput(lr.Out), bcl.OptLogger(lr.Log))
+			lr.Err = e3
+			if e1 == nil || e2 == nil {
+				lr.Err = nil
+			}
+		case 7: // Load on a Prog nobody configured
+			var p bcl.Prog
+			lr.Err = p.Load(&simio.SimReader{Data: data, Script: script})
+			lr.Prog = &p
+		case 8: // no writers at all
+			lr.Prog, lr.Err = bcl.LoadProg(&simio.SimReader{Data: data, Script: script}, "n", bcl.OptOutput(nil), bcl.OptLogger(nil))
 		default:
 			lr.Prog, lr.Err = bcl.LoadProg(&simio.SimReader{Data: data, Script: script, EndErr: errDisk}, "n", bcl.OptOutput(lr.Out), bcl.OptLogger(lr.Log))
 		}
@@ -136,6 +159,7 @@ func c13LoadVariant(sc *Scenario, data []byte, script []simio.ReadStep, what str
 		c.Reads = script
 		c.SetInt("variant", variant)
 		o.Evals++
+		c13Hung[variant] = true
 		o.viol("C13", "hang", sig+":load does not return", fmt.Sprintf("Load did not return within 20s on %s (%s)", what, c13VariantName[variant]), c)
 		return
 	}
@@ -143,7 +167,21 @@ func c13LoadVariant(sc *Scenario, data []byte, script []simio.ReadStep, what str
 	c13Judge(sc, lr, data, script, what+" ("+c13VariantName[variant]+")", o, sig, map[string]int{"variant": variant})
 }
 
-var c13VariantName = []string{"", "Load into a used Prog", "second Load into the same Prog", "reader ends with io.ErrUnexpectedEOF", "reader ends with an I/O error", "file-like reader (Read, Close, Name)"}
+var c13VariantName = []string{"", "Load into a used Prog", "second Load into the same Prog", "reader ends with io.ErrUnexpectedEOF", "reader ends with an I/O error", "file-like reader (Read, Close, Name)",
+	"caller-owned *bufio.Reader: retried, then reset and used again after an unrelated load", "Load on a zero-value Prog", "LoadProg with nil output and log writers"}
+
+var c13Hung = map[int]bool{}
+
+var c13SmallDump []byte
+
+// c13Small is a small complete dump (for the unrelated load in variant 6).
+func c13Small() []byte {
+	if c13SmallDump == nil {
+		m := ParseMem([]byte("print 1\n"), "small", 0)
+		c13SmallDump, _, _ = DumpProg(m.Prog)
+	}
+	return c13SmallDump
+}
 
 // fileLike is a reader that also has Close and Name, like the *os.File cmd/bcl hands to LoadProg.
 type fileLike struct {
@@ -153,6 +191,7 @@ type fileLike struct {
 
 func (f *fileLike) Close() error { f.closes++; return nil }
 func (f *fileLike) Name() string { return "dump.bcb" }
+
 var errDisk = errors.New("simio: read failed (EIO)")
 
 func c13Judge(sc *Scenario, lr *loadResult, data []byte, script []simio.ReadStep, what string, o *Outcome, sig string, extra map[string]int) {
@@ -271,7 +310,7 @@ func (c13) Run(t *testing.T, sc *Scenario) *Outcome {
 			// the options LoadProg takes are part of the call: the listing must not be attempted on a failed load
 			c13LoadOpt(sc, torn, script, what+" (seeded partition, zero reads, data+EOF)", o, "prefix", k%2 == 1)
 			if k%3 == 0 || k > len(full)-40 {
-				c13LoadVariant(sc, torn, nil, what, o, "prefix", 1+(k/3)%5)
+				c13LoadVariant(sc, torn, nil, what, o, "prefix", 1+(k/3)%8)
 			}
 			if len(o.Violations) > 0 {
 				break
